@@ -1,4 +1,4 @@
-HOOK_COMMITS = ["1f23ce1", "19a6366", "2f68a08", "696cad2", "6d64dfa", "02a7a17", "ec44b21", "4f0f0e1", "611fd41", "a6d55ff", "71ec365", "16c9f99"]
+HOOK_COMMITS = ["1f23ce1", "19a6366", "2f68a08", "696cad2", "6d64dfa", "02a7a17", "ec44b21", "4f0f0e1", "611fd41", "a6d55ff", "71ec365", "16c9f99", "959e5de"]
 NOTES = ("Solver-based checking of the real code: Kani/CBMC harnesses over roto's Rust (engine K), translation validation of the "
          "emitted cranelift IR with symbolic arguments in z3 (engine T), symbolic interpretation of MIR slices of the LIR evaluator "
          "(engine M). See DESIGN.md, section 10 for the as-built record. Exit 2 = inconclusive (timeout, OOM, vacuous harness, "
